@@ -201,6 +201,10 @@ func c12Alphabet(tier string) func(raw json.RawMessage, depth int) []Op {
 			}
 			if created[u] > 0 {
 				ops = append(ops, Op{K: "recharge", U: u, RG: 1, Amt: 100})
+				if u == 0 {
+					// a rating group the subscriber has not used: still one notification, naming that rating group
+					ops = append(ops, Op{K: "recharge", U: u, RG: 2})
+				}
 			}
 			if u == 0 && depth >= 1 && in.Events < 1 {
 				// a one-time event of the subscriber: opens no session and must leave the open ones usable
